@@ -24,6 +24,16 @@ the final world: every array value, every shell parameter, the error state, and 
 parameters at its last (re)normalisation.  Observed and predicted are compared op by op; the cached
 norm_cont is compared bitwise with that of a freshly constructed shell carrying the predicted parameters;
 shells the model calls fresh must have a unit overlap diagonal (1e-8).
+
+Component conventions: the environment may hold shells of one angular momentum whose class reports another
+Cartesian order / other pure labels (subclasses as gbasis/wrappers.py builds them; the labels of one of them are
+a caller-owned LIST that is also passed to generate_transformation directly, several times).  The convention
+objects are shared objects like any other (snapshots cover lists of strings), and a shell's table is part of the
+shell's value in the model.  "The value returned depends only on the arguments" is additionally tested ACROSS
+PROCESSES: a pair of call-only histories with the same calls in different orders is executed in two newly forked
+processes; calls the model declares equal (result_depends_on_values_only, on first ++ second) must give bitwise
+equal results - state that a call leaves behind in the process (a memo keyed by part of the arguments) makes
+them differ even though every repetition inside one process agrees.
 """
 import copy
 import hashlib
@@ -47,7 +57,19 @@ RULE = ("histories of 1-30 operations (quick ~40, thorough ~600) on one environm
         "coord_types list+tuple; ops: ~45% valid public calls (30 functions), ~20% corrupted calls (an argument "
         "replaced by another shared object or a bad immediate), ~20% shell parameter updates (valid and rejected), "
         "~10% assign_norm_cont, ~5% np.seterr by the user; 35% of histories start from a non-default error state "
-        "(modes ignore/warn/raise). Every random choice from random.Random(seed,index). A history is non-trivial "
+        "(modes ignore/warn/raise). COMPONENT CONVENTIONS (60% of the histories, 4 directed ones, tag 'conventions'): "
+        "three more spherical shells of one l in {1,2,3} - the library class (default order), a subclass with a permuted "
+        "Cartesian order and the default pure labels, a subclass whose pure labels ARE the shared list object SO "
+        "(permuted, '-' markers) - bases Bd/Bc/Bs/Bdc/Bcd/Bcs over them and the caller's convention objects SO (list), "
+        "SOt (tuple), CO/COd (component arrays); ~20% of the ops are calls on them: symmetric / asymmetric overlap, "
+        "kinetic energy, evaluate_basis on default order, a custom order of the same l, default again, and "
+        "generate_transformation with the SAME list object 'right' then 'left' (then 'left'); the convention table of a "
+        "shell is part of its value in the model (coord_type field = (coord_type, table)). TWO-PROCESS PAIRS (4 quick, "
+        "24 thorough, tag 'two-processes'): two call-only histories over one environment holding the same calls in "
+        "another order (default-order-first vs custom-order-first, and random shuffles / reversals) are run in two "
+        "newly forked processes that have made no library call; the model, given first++second, names the calls that "
+        "must agree and their results are compared bitwise across the processes. overlap_integral is also called with "
+        "loose tolerances (pairs really screened). Every random choice from random.Random(seed,index). A history is non-trivial "
         "when it has >=2 ops, at least one call returned and at least one pair of calls was predicted equal or an "
         "update happened; distinct by the hash of the exact case.")
 ASSUMPTIONS = [
@@ -57,7 +79,9 @@ ASSUMPTIONS = [
     "observation covers what is reachable from the shared objects (arrays, containers, every attribute of every "
     "shell, numpy.geterr/geterrcall); other process state (warnings registry, BLAS threads, the file system) is not "
     "watched",
-    "bitwise equality of repeated results presumes single-threaded BLAS (./check exports OPENBLAS_NUM_THREADS=1)",
+    "bitwise equality of repeated results presumes single-threaded BLAS (./check exports OPENBLAS_NUM_THREADS=1); "
+    "the two-process pairs presume in addition that two processes forked from this one compute bitwise equal "
+    "results for bitwise equal arguments (same binary, same libraries, same error state)",
     "unit normalisation is checked numerically (1e-8) on the generated shells only; the exact statement is C01's",
     "shell parameter updates are made through the property setters with fresh arrays; in-place writes into an "
     "array a shell was built from (which the shell shares) are user mutations and are not generated",
@@ -77,7 +101,7 @@ CTYPE_ID = {"c": 0, "cartesian": 1, "p": 2, "spherical": 3}
 # the functions driven (public API only)
 # ----------------------------------------------------------------------------------------------
 def _funcs():
-    from gbasis import parsers
+    from gbasis import parsers, spherical
     from gbasis.evals import density, electrostatic_potential, eval, eval_deriv, stress_tensor
     from gbasis.integrals import (angular_momentum, electron_repulsion, kinetic_energy, moment, momentum,
                                   nuclear_electron_attraction, overlap, overlap_asymm, point_charge)
@@ -109,6 +133,7 @@ def _funcs():
         "parse_nwchem": parsers.parse_nwchem,
         "parse_gbs": parsers.parse_gbs,
         "make_contractions": parsers.make_contractions,
+        "generate_transformation": spherical.generate_transformation,
     }
 
 
@@ -120,7 +145,7 @@ FUNC_NAMES = ["overlap_integral", "overlap_integral_asymmetric", "kinetic_energy
               "evaluate_density_laplacian", "evaluate_density_hessian", "evaluate_posdef_kinetic_energy_density",
               "evaluate_general_kinetic_energy_density", "electrostatic_potential", "evaluate_stress_tensor",
               "evaluate_ehrenfest_force", "evaluate_ehrenfest_hessian", "parse_nwchem", "parse_gbs",
-              "make_contractions"]
+              "make_contractions", "generate_transformation"]
 FUNC_ID = {n: i for i, n in enumerate(FUNC_NAMES)}
 ESP_ID = FUNC_ID["electrostatic_potential"]  # = 20, the function with an error-state window in the model
 _FUNCS = None
@@ -187,6 +212,61 @@ def shell_from_json(sj):
         np.array([float(e) for e in xs.exps]), "spherical" if xs.sph else "cartesian")
 
 
+def default_comps(l):
+    return [(x, y, l - x - y) for x in range(l, -1, -1) for y in range(l - x, -1, -1)]
+
+
+def default_labels(l):
+    if l == 1:
+        return ["c1", "s1", "c0"]
+    return ["s%d" % m for m in range(l, 0, -1)] + ["c%d" % m for m in range(l + 1)]
+
+
+_CONV_CLASS = None
+
+
+def conv_class():
+    """GeneralizedContractionShell subclass that reports the component convention it was GIVEN (as the subclasses of
+    gbasis/wrappers.py do for other programs).  The convention is an ordinary attribute of the shell object:
+    `_conv = {"cart": [indices into the default Cartesian order], "sph": <the caller's list/tuple of pure labels>}`;
+    `angmom_components_sph` hands out that very object (a stored convention table), so the snapshots of the shell
+    (and of the shared object, if the table is one) show any edit made to it."""
+    global _CONV_CLASS
+    if _CONV_CLASS is None:
+        from gbasis.contractions import GeneralizedContractionShell as G
+
+        class ConventionShell(G):
+            def __init__(self, angmom, coord, coeffs, exps, coord_type, conv):
+                self._conv = conv
+                super().__init__(angmom, coord, coeffs, exps, coord_type)
+
+            @property
+            def angmom_components_cart(self):
+                return G.angmom_components_cart.fget(self)[self._conv["cart"]]
+
+            @property
+            def angmom_components_sph(self):
+                return self._conv["sph"]
+
+        _CONV_CLASS = ConventionShell
+    return _CONV_CLASS
+
+
+def conv_shell_from_json(sj, conv):
+    xs = XShell.from_json(sj)
+    return conv_class()(
+        xs.l, np.array([float(c) for c in xs.coord]), np.array([[float(c) for c in r] for r in xs.coeffs]),
+        np.array([float(e) for e in xs.exps]), "spherical" if xs.sph else "cartesian", conv)
+
+
+def fresh_like(s, angmom, coord, coeffs, exps):
+    """a freshly constructed Cartesian shell of the class (and convention) of s with the given parameters"""
+    from gbasis.contractions import GeneralizedContractionShell
+    if hasattr(s, "_conv"):
+        return conv_class()(angmom, coord, coeffs, exps, "cartesian", s._conv)
+    return GeneralizedContractionShell(angmom, coord, coeffs, exps, "cartesian")
+
+
 def tests_dir():
     return os.path.join(lib.REPO, "tests")
 
@@ -209,6 +289,28 @@ def build_env(envj):
             view[...] = a
             a = view
         env[name] = a
+    cv = envj.get("cv")
+    if cv:
+        # shells of ONE angular momentum in different component conventions + the convention objects themselves
+        l = cv["l"]
+        dc = np.array(default_comps(l), dtype=int).reshape(-1, 3)
+        env["SO"] = list(cv["SO"])             # a caller's LIST of pure labels (with '-' markers), reused by calls
+        env["SOt"] = tuple(cv["SO"])
+        env["CO"] = dc[list(cv["CO"])].copy()  # a caller's Cartesian order
+        env["COd"] = dc.copy()
+        cs = []
+        for sj in cv["shells"]:
+            c = sj.get("cv")
+            if c is None:
+                cs.append(shell_from_json(sj))          # the library's own class: default order
+            else:
+                sph = env[c["sph"]] if c["sph"] in ("SO", "SOt") else tuple(default_labels(l))
+                cart = list(c["cart"]) if c["cart"] is not None else list(range(len(dc)))
+                cs.append(conv_shell_from_json(sj, {"cart": cart, "sph": sph}))
+        shells.extend(cs)                      # env["_shells"] is this list: they are part of the watched world
+        for name, b in cv["bases"].items():
+            objs = [cs[i] for i in b["idx"]]
+            env[name] = tuple(objs) if b.get("tuple") else objs
     bd = envj.get("bd")
     if bd:
         f = funcs()[bd["parser"]]
@@ -229,7 +331,7 @@ def shared_names(env):
 # snapshots
 # ----------------------------------------------------------------------------------------------
 def is_shell(o):
-    return type(o).__name__ == "GeneralizedContractionShell"
+    return any(c.__name__ == "GeneralizedContractionShell" for c in type(o).__mro__)
 
 
 def snap(o, ids=True):
@@ -244,7 +346,8 @@ def snap(o, ids=True):
     if o is None or isinstance(o, (bool, int, float, str)):
         return ("py", type(o).__name__, repr(o))
     if is_shell(o):
-        return ("shell", id(o) if ids else 0, tuple((k, snap(v, ids)) for k, v in sorted(vars(o).items())))
+        return ("shell", id(o) if ids else 0, type(o).__name__,
+                tuple((k, snap(v, ids)) for k, v in sorted(vars(o).items())))
     return ("obj", type(o).__name__)
 
 
@@ -270,11 +373,13 @@ def describe(s, depth=0):
     if s[0] == "py":
         return s[2]
     if s[0] == "shell":
-        return "shell(" + ", ".join("%s=%s" % (k, describe(v, depth + 1)) for k, v in s[2]) + ")" if depth < 1 \
+        return "shell(" + ", ".join("%s=%s" % (k, describe(v, depth + 1)) for k, v in s[3]) + ")" if depth < 1 \
             else "<shell>"
     if s[0] == "err":
         return "%s errcall=%s" % (dict(s[1]), s[2])
     if s[0] == "dict":
+        if depth < 2 and len(s[1]) <= 4:
+            return "{" + ", ".join("%s: %s" % (describe(k, depth + 1), describe(v, depth + 1)) for k, v in s[1]) + "}"
         return "{%d items}" % len(s[1])
     return str(s[:2])
 
@@ -388,9 +493,14 @@ def enc_case(case, env):
     index = {n: i for i, n in enumerate(names)}
     shell_index = {id(s): i for i, s in enumerate(env["_shells"])}
     objs = " ".join(enc_val(env[n], intern, shell_index) for n in names)
-    shells = " ".join("(%d %s %s %s (1 %d))" % (
+    # fifth field: the coord_type; for a shell that carries a convention table the PAIR (coord_type, table), so that
+    # the table is part of the value of the shell (and of every basis holding it) in the model
+    shells = " ".join("(%d %s %s %s %s)" % (
         s.angmom, enc_val(s.coord, intern, shell_index), enc_val(s.exps, intern, shell_index),
-        enc_val(s.coeffs, intern, shell_index), CTYPE_ID[s.coord_type]) for s in env["_shells"])
+        enc_val(s.coeffs, intern, shell_index),
+        "(1 %d)" % CTYPE_ID[s.coord_type] if not hasattr(s, "_conv")
+        else "(4 (1 %d) %s)" % (CTYPE_ID[s.coord_type], enc_val(s._conv, intern, shell_index)))
+        for s in env["_shells"])
     ops = []
     for op in case["ops"]:
         if op["op"] == "call":
@@ -500,10 +610,9 @@ def unit_diag_problem(shell):
     return None
 
 
-def run_history(case, pred=None):
+def run_history(case, pred=None, outcomes_out=None):
     """Execute the history; returns (detail | None, stats).  detail carries 'signature' (what kind of defect,
-    which function) used to group failing histories."""
-    from gbasis.contractions import GeneralizedContractionShell
+    which function) used to group failing histories.  outcomes_out (a list) receives the per-op outcomes."""
     F = funcs()
     saved_err = np.geterr()
     saved_call = np.geterrcall()
@@ -515,14 +624,24 @@ def run_history(case, pred=None):
         env = build_env(case["env"])
         shells = env["_shells"]
         np.seterr(**case["env"]["err"])
-        # as constructed: unit-normalised
+        # as constructed: unit-normalised (the check is itself a public call on each shell: it is monitored too)
+        before = snap_world(env)
+        problems = []
         for i, s in enumerate(shells):
             stats["unit_checks"] += 1
             p = unit_diag_problem(s)
             if p:
-                return ({"kind": "not-unit-normalised", "signature": "unit:constructed", "op_index": -1,
-                         "shell": i, "impl": p}, stats)
-        outcomes = []   # per op: ("ok", digest) | ("rejected",) | None
+                problems.append((i, p))
+        diff = world_diff(before, snap_world(env))
+        if diff:
+            which = "errstate" if all(d["object"] == "numpy.geterr" for d in diff) else "argument"
+            return ({"kind": "world-changed-by-call", "signature": "%s:overlap_integral:ok" % which, "op_index": -1,
+                     "op": "overlap_integral([shell]) on every shell of the freshly built environment",
+                     "changed": diff, "model": "world unchanged by a public call"}, stats)
+        if problems:
+            return ({"kind": "not-unit-normalised", "signature": "unit:constructed", "op_index": -1,
+                     "shell": problems[0][0], "impl": problems[0][1]}, stats)
+        outcomes = outcomes_out if outcomes_out is not None else []   # per op: ("ok", digest) | ("rejected", "") | None
         keys = {}       # harness-side key of a call -> index of first occurrence
         opkeys = {}     # op index -> key
         for idx, op in enumerate(case["ops"]):
@@ -663,7 +782,9 @@ def run_history(case, pred=None):
                 angmom, coord, exps, coeffs, ctype, norm = pv
                 ok = (val_matches(angmom, s.angmom, shells) and val_matches(coord, s.coord, shells)
                       and val_matches(exps, s.exps, shells) and val_matches(coeffs, s.coeffs, shells)
-                      and ctype == [1, CTYPE_ID[s.coord_type]])
+                      and (ctype == [1, CTYPE_ID[s.coord_type]] if not hasattr(s, "_conv") else
+                           (isinstance(ctype, list) and len(ctype) == 3 and ctype[0] == 4
+                            and ctype[1] == [1, CTYPE_ID[s.coord_type]] and val_matches(ctype[2], s._conv, shells))))
                 if not ok:
                     return ({"kind": "final-world", "signature": "final:shell-params", "shell": i,
                              "op_index": len(case["ops"]), "impl": describe(snap(s))[:800], "model": str(pv)[:800]},
@@ -671,8 +792,7 @@ def run_history(case, pred=None):
                 # the cached norm is the norm of a fresh shell carrying the parameters of the last (re)normalisation
                 n_ang, n_coord, n_exps, n_coeffs = norm
                 with np.errstate(all="ignore"):
-                    ref = GeneralizedContractionShell(int(n_ang), arr_of_val(n_coord), arr_of_val(n_coeffs),
-                                                      arr_of_val(n_exps), "cartesian")
+                    ref = fresh_like(s, int(n_ang), arr_of_val(n_coord), arr_of_val(n_coeffs), arr_of_val(n_exps))
                 same = snap(ref.norm_cont)[1:] == snap(s.norm_cont)[1:]
                 if same and not pred["fresh"][i]:
                     stats["stale_norm_confirmed"] += 1
@@ -680,8 +800,7 @@ def run_history(case, pred=None):
                     # The model (like the pinned code) leaves the cache stale until assign_norm_cont.  The property
                     # does not demand staleness: a setter that renormalises at once is accepted as well.
                     with np.errstate(all="ignore"):
-                        cur = GeneralizedContractionShell(s.angmom, s.coord.copy(), s.coeffs.copy(), s.exps.copy(),
-                                                          "cartesian")
+                        cur = fresh_like(s, s.angmom, s.coord.copy(), s.coeffs.copy(), s.exps.copy())
                     if snap(cur.norm_cont)[1:] == snap(s.norm_cont)[1:]:
                         same = True
                         stats["eager_renormalisation_accepted"] += 1
@@ -777,6 +896,72 @@ def gen_env(rng):
     return envj
 
 
+# ----------------------------------------------------------------------------------------------
+# shells of one angular momentum in different component conventions; convention objects reused across calls
+# ----------------------------------------------------------------------------------------------
+CV_BASES = {"Bd": {"idx": [0]}, "Bc": {"idx": [1]}, "Bs": {"idx": [2]}, "Bdc": {"idx": [0, 1]},
+            "Bcd": {"idx": [1, 0]}, "Bcs": {"idx": [1, 2], "tuple": True}}
+
+
+def gen_cv(rng):
+    """three spherical shells of ONE angular momentum l: [0] the library's class (default order), [1] a subclass with
+    a permuted Cartesian order and the default pure labels, [2] a subclass whose pure labels are the shared LIST
+    object SO (permuted, with '-' markers; Cartesian order default or permuted); the objects SO (list), SOt (tuple),
+    CO (the permuted Cartesian order), COd (default order); one-shell / two-shell bases over them"""
+    l = rng.choice([2, 2, 3, 1])
+    n = len(default_comps(l))
+    perm = list(range(n))
+    while perm == sorted(perm):
+        rng.shuffle(perm)
+    base = default_labels(l)
+    labs = list(base)
+    while labs == base:
+        rng.shuffle(labs)
+    k = rng.randrange(len(labs))
+    labs = [("-" + x) if (i == k or rng.random() < 0.4) else x for i, x in enumerate(labs)]
+    shells = [gen_shell(rng, l=l, kmax=2, mmax=2, span=1, exp_lo=0.05, exp_hi=20.0, sph=True).to_json()
+              for _ in range(3)]
+    shells[1]["cv"] = {"cart": perm, "sph": None}
+    perm2 = list(range(n))
+    if rng.random() < 0.5:
+        rng.shuffle(perm2)
+    shells[2]["cv"] = {"cart": perm2, "sph": "SO"}
+    return {"l": l, "SO": labs, "CO": perm, "shells": shells, "bases": copy.deepcopy(CV_BASES)}
+
+
+def cv_call(fn, *a):
+    return {"op": "call", "fn": fn, "a": list(a), "k": {}}
+
+
+def conv_ops(rng, envj):
+    """one call (or a default / custom / default triple) on the convention shells or the convention objects"""
+    l = envj["cv"]["l"]
+    names = sorted(envj["cv"]["bases"])
+    r = rng.random()
+    if r < 0.2:      # the same function on the default order, a custom order of the same l, the default order again
+        fn = rng.choice(["overlap_integral_asymmetric", "overlap_integral_asymmetric", "overlap_integral",
+                         "kinetic_energy_integral"])
+        x, y = rng.choice([("@Bd", "@Bc"), ("@Bc", "@Bd"), ("@Bd", "@Bs"), ("@Bs", "@Bc")])
+        if fn == "overlap_integral_asymmetric":
+            return [cv_call(fn, x, x), cv_call(fn, y, y), cv_call(fn, x, x)]
+        return [cv_call(fn, x), cv_call(fn, y), cv_call(fn, x)]
+    if r < 0.45:
+        return [cv_call("overlap_integral_asymmetric", "@" + rng.choice(names), "@" + rng.choice(names))]
+    if r < 0.6:
+        return [cv_call("overlap_integral", "@" + rng.choice(names))]
+    if r < 0.7:
+        if rng.random() < 0.5:
+            return [cv_call("kinetic_energy_integral", "@" + rng.choice(names))]
+        return [cv_call("evaluate_basis", "@" + rng.choice(names), "@pts")]
+    # generate_transformation with the caller's (reused) convention objects
+    so = rng.choice(["@SO", "@SO", "@SO", "@SOt"])
+    co = rng.choice(["@CO", "@COd"])
+    if rng.random() < 0.5:
+        return [cv_call("generate_transformation", l, co, so, side) for side in
+                rng.choice([("right", "left"), ("left", "left"), ("right", "left", "left")])]
+    return [cv_call("generate_transformation", l, co, so, rng.choice(["left", "right"]))]
+
+
 def F_(q):
     q = Fraction(q)
     return {"f": "%d/%d" % (q.numerator, q.denominator)}
@@ -786,7 +971,8 @@ def valid_call(rng, envj, fn=None):
     """a call with well-formed arguments (it may still be refused, e.g. after an angmom update)"""
     n = sum(nfun(s) for s in envj["shells"])
     has_bd = "bd" in envj
-    names = [f for f in FUNC_NAMES if has_bd or f not in ("parse_nwchem", "parse_gbs", "make_contractions")]
+    names = [f for f in FUNC_NAMES if f != "generate_transformation"
+             and (has_bd or f not in ("parse_nwchem", "parse_gbs", "make_contractions"))]
     fn = fn or rng.choice(names)
     basis = rng.choice(["@B", "@B", "@Bt"])
     tr = rng.random() < 0.35
@@ -799,7 +985,10 @@ def valid_call(rng, envj, fn=None):
     if fn in ("overlap_integral",):
         a = [basis]
         if rng.random() < 0.3:
-            kw["tol_screen"] = F_(Fraction(1, 1 << rng.randint(3, 40)))
+            # tight tolerances (nothing screened) as well as loose ones (cutoff below the distance of the centres:
+            # shell pairs really are screened)
+            kw["tol_screen"] = F_(rng.choice([Fraction(1, 1 << rng.randint(3, 40)), Fraction(1, 1 << rng.randint(1, 3)),
+                                              1 - Fraction(1, 1 << rng.randint(4, 30))]))
     elif fn == "overlap_integral_asymmetric":
         a = [basis, "@B0"]
         kw = {}
@@ -879,6 +1068,8 @@ def corrupt_call(rng, envj, op):
     refs = ["@" + k for k in envj["arrays"]] + ["@B", "@Bt", "@B0"]
     if "bd" in envj:
         refs += ["@BD", "@AT", "@CT", "@CTt"]
+    if "cv" in envj:
+        refs += ["@SO", "@SOt", "@CO", "@COd", "@Bd", "@Bc", "@Bs", "@Bcs"]
     slots = [("a", i) for i in range(len(op["a"]))] + [("k", k) for k in op["k"]]
     if op["fn"] == "electrostatic_potential" and rng.random() < 0.5:
         op["a"][4] = "@NQs"       # charges with a string dtype pass the ndarray/ndim test
@@ -943,12 +1134,17 @@ def gen_update(rng, envj, state):
 def gen_case(seed, index, tier):
     rng = random.Random(1000003 * seed + 7919 * index + (0 if tier == "quick" else 500000009))
     envj = gen_env(rng)
+    if rng.random() < 0.6:
+        envj["cv"] = gen_cv(rng)
     state = [{"K": len(s["exps"]), "M": len(s["coeffs"][0])} for s in envj["shells"]]
     nops = rng.choice([1, 2, 3, 5, 8, 12, 16, 20, 25, 30]) if index % 4 else rng.randint(1, 30)
     ops = []
     pending = []  # shells updated and not yet renormalised
     heavy = 0
     while len(ops) < nops:
+        if "cv" in envj and rng.random() < 0.2:
+            ops.extend(conv_ops(rng, envj))
+            continue
         r = rng.random()
         if r < 0.45:
             op = valid_call(rng, envj)
@@ -1002,8 +1198,65 @@ def directed_cases():
                 + ops
         ops += [{"op": "call", "fn": "overlap_integral", "a": ["@B"], "k": {}},
                 {"op": "call", "fn": "evaluate_basis", "a": ["@B", "@pts"], "k": {}},
+                # screening with a loose tolerance: every pair of shells on different centres is screened
+                {"op": "call", "fn": "overlap_integral", "a": ["@B"], "k": {"tol_screen": F_(1 - Fraction(1, 1 << 20))}},
                 {"op": "call", "fn": "overlap_integral", "a": ["@B"], "k": {}}]
         out.append({"env": envj, "ops": copy.deepcopy(ops)})
+    # component conventions: default order / custom order of the same l / default again; a reused list of labels
+    A, S, G = "overlap_integral_asymmetric", "overlap_integral", "generate_transformation"
+    for i in range(4):
+        envj = gen_env(rng)
+        envj["err"] = dict(DEFAULT_ERR)
+        envj["cv"] = gen_cv(rng)
+        l = envj["cv"]["l"]
+        ops = [
+            [cv_call(A, "@Bd", "@Bd"), cv_call(A, "@Bc", "@Bc"), cv_call(A, "@Bd", "@Bd"), cv_call(S, "@Bd"),
+             cv_call(S, "@Bc"), cv_call(S, "@Bd"), cv_call(S, "@Bdc"), cv_call(S, "@Bcd")],
+            [cv_call(A, "@Bc", "@Bc"), cv_call(A, "@Bd", "@Bd"), cv_call(A, "@Bc", "@Bc"), cv_call(A, "@Bdc", "@Bcd"),
+             cv_call(A, "@Bcd", "@Bdc"), cv_call(A, "@Bdc", "@Bcd")],
+            [cv_call(G, l, "@CO", "@SO", "right"), cv_call(G, l, "@CO", "@SO", "left"),
+             cv_call(G, l, "@CO", "@SO", "left"), cv_call(G, l, "@COd", "@SOt", "right"),
+             cv_call(G, l, "@COd", "@SOt", "left"), cv_call(G, l, "@COd", "@SO", "right")],
+            [cv_call(S, "@Bs"), cv_call(S, "@Bs"), cv_call(A, "@Bs", "@Bs"), cv_call(A, "@Bcs", "@Bd"),
+             cv_call(S, "@Bs"), cv_call(G, l, "@COd", "@SO", "left"), cv_call(G, l, "@COd", "@SO", "left")],
+        ][i]
+        out.append({"env": envj, "ops": copy.deepcopy(ops)})
+    return out
+
+
+def twin_cases(seed, tier):
+    """pairs of call-only histories over ONE environment, to be executed in two FRESH processes: the same calls in
+    another order.  The model (one history: first half then second half; calls leave the world unchanged) says which
+    calls of the second half repeat a call of the first; the outcomes must be bitwise equal although they were
+    obtained after different sequences of earlier calls, in different processes."""
+    out = []
+    A, S, G = "overlap_integral_asymmetric", "overlap_integral", "generate_transformation"
+    light = ["overlap_integral", "overlap_integral_asymmetric", "kinetic_energy_integral", "moment_integral",
+             "momentum_integral", "evaluate_basis", "evaluate_deriv_basis", "evaluate_density", "point_charge_integral"]
+    for k in range(4 if tier == "quick" else 24):
+        rng = random.Random(1000003 * seed + 104729 * k + (17 if tier == "quick" else 500000017))
+        envj = gen_env(rng)
+        envj["cv"] = gen_cv(rng)
+        l = envj["cv"]["l"]
+        if k % 2 == 0:
+            first = [cv_call(A, "@Bd", "@Bd"), cv_call(A, "@Bc", "@Bc"), cv_call(S, "@Bd"), cv_call(A, "@Bd", "@Bd"),
+                     cv_call(G, l, "@CO", "@SO", "right"), cv_call(G, l, "@CO", "@SO", "left"), cv_call(S, "@Bs")]
+            second = [cv_call(A, "@Bc", "@Bc"), cv_call(S, "@Bs"), cv_call(A, "@Bd", "@Bd"),
+                      cv_call(G, l, "@CO", "@SO", "left"), cv_call(S, "@Bd"), cv_call(A, "@Bc", "@Bc"),
+                      cv_call(G, l, "@CO", "@SO", "right")]
+        else:
+            pool = []
+            for _ in range(rng.randint(3, 5)):
+                pool.extend(conv_ops(rng, envj))
+            for _ in range(rng.randint(1, 3)):
+                pool.append(valid_call(rng, envj, fn=rng.choice(light)))
+            if rng.random() < 0.5:
+                pool.append(corrupt_call(rng, envj, valid_call(rng, envj, fn=rng.choice(light))))
+            first = list(pool)
+            rng.shuffle(first)
+            second = list(reversed(first))
+            first.append(copy.deepcopy(first[0]))
+        out.append({"env": envj, "ops": copy.deepcopy(first), "twin": copy.deepcopy(second)})
     return out
 
 
@@ -1029,6 +1282,63 @@ def _w_run(case):
         return (case, eval_case(_W_MODEL, case), None)
     except Exception:  # noqa: BLE001
         return (case, None, traceback.format_exc()[-3000:])
+
+
+def _t_run(half):
+    """one half of a twin case, in a process that has made no call yet"""
+    try:
+        outs = []
+        detail, stats = run_history(half, None, outs)
+        return (detail, stats, outs, None)
+    except Exception:  # noqa: BLE001
+        return (None, None, None, traceback.format_exc()[-3000:])
+
+
+def eval_twins(model, cases):
+    """-> list of (case, detail | None, stats, (cmd, raw))"""
+    halves = []
+    for c in cases:
+        halves.append({"env": c["env"], "ops": c["ops"]})
+        halves.append({"env": c["env"], "ops": c["twin"]})
+    ctx = mp.get_context("fork")
+    with ctx.Pool(min(8, len(halves)), maxtasksperchild=1) as pool:     # every half in a newly forked process
+        res = pool.map(_t_run, halves, chunksize=1)
+    out = []
+    for i, c in enumerate(cases):
+        ops = c["ops"] + c["twin"]
+        pred = model_predict(model, {"env": c["env"], "ops": ops})
+        stats = {}
+        detail = None
+        outs = []
+        for h, (d, st, o, err) in zip(("first", "second"), res[2 * i:2 * i + 2]):
+            if err is not None:
+                raise RuntimeError("harness error on twin case %s:\n%s" % (json.dumps(c, default=str)[:400], err))
+            for k_, v in st.items():
+                stats[k_] = stats.get(k_, 0) + v
+            if d is not None and detail is None:
+                detail = dict(d, process="%s history of the pair (op_index counts inside it)" % h)
+            outs.extend(o)
+        n_eq = 0
+        if detail is None:
+            assert len(outs) == len(ops)
+            for idx, (pk, pf, pc) in enumerate(pred["ops"]):
+                if pc != 0:
+                    raise RuntimeError("model predicts a world change for a call")
+                if pf != idx:
+                    n_eq += 1
+                    if outs[pf] != outs[idx] and detail is None:
+                        n1 = len(c["ops"])
+                        where = lambda j: ("first process, call %d" % j) if j < n1 else ("second process, call %d" % (j - n1))  # noqa: E731
+                        detail = {"kind": "outcome-depends-on-earlier-calls", "signature": "history:%s" % ops[idx]["fn"],
+                                  "op_index": idx, "first_index": pf, "op": ops[idx],
+                                  "first_outcome": outs[pf][0], "this_outcome": outs[idx][0],
+                                  "impl": "%s and %s gave different results (same function, bitwise equal argument "
+                                          "values, same error state)" % (where(pf), where(idx)),
+                                  "model": "result_depends_on_values_only: same outcome as op %d whatever calls were "
+                                           "made before" % pf}
+        stats["twin_pairs_equal_model"] = n_eq
+        out.append((c, detail, stats, (pred["cmd"], pred["raw"])))
+    return out
 
 
 def shrink_case(model, case, signature, budget=150):
@@ -1126,9 +1436,17 @@ def run(rep, tier, seed, model, replay):
         cases = [replay["case"]]
     else:
         nseq = 40 if tier == "quick" else 600
-        cases = directed_cases() + [gen_case(seed, i, tier) for i in range(nseq)]
+        cases = twin_cases(seed, tier) + directed_cases() + [gen_case(seed, i, tier) for i in range(nseq)]
     results = []
-    if len(cases) < 4 or model is None:
+    # pairs of histories in fresh processes first (this process has made no library call yet)
+    twins = [c for c in cases if "twin" in c]
+    cases = [c for c in cases if "twin" not in c]
+    if twins and model is not None:
+        for c, detail, stats, pr in eval_twins(model, twins):
+            results.append((c, (detail, stats, pr), None))
+    if not cases:
+        pass
+    elif len(cases) < 4 or model is None:
         for c in cases:
             results.append((c, eval_case(model, c), None))
     else:
@@ -1140,35 +1458,52 @@ def run(rep, tier, seed, model, replay):
     tot = {}
     failing = {}
     pairs = []
+    prior = set()
     for case, out, err in results:
         if err is not None:
             raise RuntimeError("harness error on case %s:\n%s" % (json.dumps(case, default=str)[:400], err))
         detail, stats, pr = out
         for k, v in stats.items():
             tot[k] = tot.get(k, 0) + v
-        nontrivial = len(case["ops"]) >= 2 and stats["returned"] > 0 and (stats["pairs_equal"] > 0 or stats["updates"] > 0)
-        rep.count(case, nontrivial=nontrivial, tag="ops=%d-%d" % (10 * (len(case["ops"]) // 10), 10 * (len(case["ops"]) // 10) + 9))
+        nontrivial = len(case["ops"]) >= 2 and stats["returned"] > 0 and (
+            stats["pairs_equal"] > 0 or stats["updates"] > 0 or stats.get("twin_pairs_equal_model", 0) > 0)
+        tag = "ops=%d-%d" % (10 * (len(case["ops"]) // 10), 10 * (len(case["ops"]) // 10) + 9)
+        if "twin" in case:
+            tag = "two-processes"
+        elif "cv" in case["env"]:
+            tag += " conventions"
+        rep.count(case, nontrivial=nontrivial, tag=tag)
         if pr is not None:
             pairs.append(pr)
+            if "twin" in case or "cv" in case["env"]:
+                prior.add(pr[0])
         if detail is not None:
             failing.setdefault(detail["signature"], []).append((case, detail))
     # one minimal replay per distinct signature
     for sig in sorted(failing):
         lst = sorted(failing[sig], key=lambda cd: len(cd[0]["ops"]))
         case, detail = lst[0]
-        if replay is None:
+        if replay is None and "twin" not in case:
             case, detail = shrink_case(model, case, sig)
         detail = dict(detail)
         detail["histories_failing_with_this_signature"] = len(lst)
         rep.violation(case, detail)
     # the same commands inside Coq
     if pairs and model is not None:
-        # every history whose encoding is small enough (quick) / every 6th (thorough), at most ~1.2 MB of terms
+        # every 6th history (thorough) / in the quick tier: the two-process pairs and the histories with component
+        # conventions first, then the others, while the generated Coq terms stay below ~1.3 MB of text (coqc spends
+        # ~25 s per MB on them); a single history above 60 kB of S-expression is skipped
+        def est(pr):     # size of the Coq literal of an S-expression text
+            return sum(len(x) + 6 * x.count(" ") + 4 * x.count("(") for x in pr)
+        cand = pairs if tier == "quick" or replay is not None else pairs[::6]
+        if tier == "quick":
+            cand = sorted(cand, key=lambda pr: 0 if pr[0] in prior else 1)     # stable: otherwise the order of `pairs`
+        budget = 1300000 if tier == "quick" else 3600000
         sub, size = [], 0
-        for pr in (pairs if tier == "quick" or replay is not None else pairs[::6]):
-            if len(pr[0]) + len(pr[1]) <= 60000 and size + len(pr[0]) + len(pr[1]) <= 1200000:
+        for pr in cand:
+            if len(pr[0]) + len(pr[1]) <= 60000 and size + est(pr) <= budget:
                 sub.append(pr)
-                size += len(pr[0]) + len(pr[1])
+                size += est(pr)
         n, bad = coq_crosscheck(sub, tier)
         tot["in_coq_vm_compute_histories"] = n
         if bad:
